@@ -363,6 +363,10 @@ pub fn gen_c04(rng: &mut Rng, thorough: bool) -> Vec<Tagged> {
             let epochs = rng.range(1, 3) as i32;
             let data = rand_data(rng, n, input, outsh, spec.obj);
             let tag = format!("learn-N{}-B{}-E{}-{}", n, batch, epochs, spec.opt.kind());
+            if r % 4 == 1 {
+                // optimizer state must carry over between consecutive calls of learn
+                out.push((format!("{}-twice", tag), Case::Net(spec.clone(), NetCmd::LearnTwice { data: data.clone(), batch, epochs1: epochs, epochs2: 2 })));
+            }
             out.push((tag, Case::Net(spec, NetCmd::Learn { data, val: None, batch, epochs })));
         }
     }
@@ -419,6 +423,58 @@ pub fn gen_c09(rng: &mut Rng, thorough: bool) -> Vec<Tagged> {
             spec2.opt = Opt::SGD { lr: *rng.pick(&[0.05f32, -0.05]), decay: None };
             let val2 = rand_data(rng, 2, input, outsh, Obj::MSE);
             out.push((format!("{}-learn-earlystop", tag), Case::Net(spec2, NetCmd::Learn { data: data.clone(), val: Some((val2, rng.range(1, 2) as i32)), batch: 1, epochs: 6 })));
+        }
+    }
+    out
+}
+
+/// networks whose dropout layers sit inside a feedback block
+pub fn gen_c09_blocks(rng: &mut Rng, thorough: bool) -> Vec<Tagged> {
+    let mut out: Vec<Tagged> = vec![];
+    let mut o = GenOpts::default();
+    o.wkind = 2;
+    o.dropout = true;
+    o.acts = vec![Act::Linear, Act::Tanh, Act::Sigmoid, Act::Leaky];
+    let reps = if thorough { 120 } else { 16 };
+    for r in 0..reps {
+        let loops = rng.range(1, 3);
+        let bacc = *rng.pick(&[Acc::Mean, Acc::Add]);
+        if let Some((mut spec, input, outsh)) = block_net(rng, &o, r % 2 == 0, loops, false, false, bacc, true) {
+            spec.opt = Opt::SGD { lr: *rng.pick(&[0.05f32, 1e-30]), decay: None };
+            spec.obj = Obj::MSE;
+            let nd = rng.range(1, 3);
+            let data = rand_data(rng, nd, input, outsh, Obj::MSE);
+            let val = rand_data(rng, 2, input, outsh, Obj::MSE);
+            let tag = format!("dropout-block-L{}", loops);
+            out.push((format!("{}-learn", tag), Case::Net(spec.clone(), NetCmd::Learn { data: data.clone(), val: Some((val.clone(), 100)), batch: 1, epochs: 2 })));
+            out.push((format!("{}-learn-earlystop", tag), Case::Net(spec.clone(), NetCmd::Learn { data: data.clone(), val: Some((val.clone(), 1)), batch: 2, epochs: 4 })));
+            out.push((format!("{}-validate-in-training", tag), Case::Net(spec.clone(), NetCmd::Validate { data: val.clone(), tol: 0.1, pre_training: true })));
+            out.push((format!("{}-predict", tag), Case::Net(spec, NetCmd::Predict(data[0].0.clone()))));
+        }
+    }
+    out
+}
+
+/// C03 through the network: state slots of multi-filter layers and of several layers must not
+/// interfere (stateful optimizers, several steps)
+pub fn gen_c03_net(rng: &mut Rng, thorough: bool) -> Vec<Tagged> {
+    let mut out: Vec<Tagged> = vec![];
+    let mut o = GenOpts::default();
+    o.wkind = 2;
+    o.max_ch = 3;
+    o.acts = vec![Act::Linear, Act::Tanh, Act::Sigmoid];
+    let reps = if thorough { 150 } else { 24 };
+    for r in 0..reps {
+        let input = Sh::Sp(rng.range(1, 2), rng.range(2, 4), rng.range(2, 4));
+        let kinds: Vec<&str> = match r % 3 { 0 => vec!["conv"], 1 => vec!["deconv"], _ => vec!["conv", "deconv", "dense"] };
+        let depth = rng.range(2, 3);
+        if let Some((mut spec, shapes)) = rand_seq(rng, &o, input, depth, &kinds, true) {
+            spec.opt = rand_opt(rng, 1 + r % 4);
+            spec.obj = Obj::MSE;
+            let outsh = *shapes.last().unwrap();
+            let nd = rng.range(2, 4);
+            let data = rand_data(rng, nd, input, outsh, Obj::MSE);
+            out.push((format!("net-slots-{}-{}", spec.opt.kind(), kinds.join("+")), Case::Net(spec, NetCmd::Learn { data, val: None, batch: 1, epochs: 2 })));
         }
     }
     out
